@@ -14,3 +14,13 @@ package nextstrain
 //@   flag treeop
 //@   requires n != nil
 //@   ensures [always_a_tree_object] t != nil
+
+// cladeToTree (properties C02, C13): one new node per JSON node under the node of its parent; the branch length is
+// the divergence gained since the parent; never indexes or dereferences anything absent
+//@ func io/nextstrain.cladeToTree
+//@   flag noframe
+//@   flag lightcalls
+//@   requires c != nil && t != nil && nedges != nil && nnodes != nil
+//@   call (*tree.Tree).ConnectNodes [the_node_hangs_under_its_parent_s_node] a0 == t && a1 == parent && a2 == newNode && parent != nil && fresh(newNode)
+//@   call (*tree.Edge).SetLength [branch_length_is_the_divergence_gained_since_the_parent] a0 == e && a1 == c.Attributes.Divergence - prevdiv
+//@   call io/nextstrain.cladeToTree [children_are_converted_under_the_new_node_from_this_node_s_divergence] a1 == t && a2 == newNode && a3 == nedges && a4 == nnodes && a5 == c.Attributes.Divergence
